@@ -68,4 +68,14 @@ CHECKS = {
         ref="5 C10", note="Trusted: TLC, the line/BGZF readers in harness/readers.py and sort_common.line_starts, pickle. The tagged graph and the record pool are data files shared by the spec and the harness (spec/data/sort_*.json). Bounds: files of <=2 (quick) / <=3 (thorough) pool records exhaustively, random files of <=40 records, multi-block BGZF in thorough.",
         technique="TLC model checking of the WriteRecord/Finish machine + TLC validation of the resolved .gsi against GsiOf",
     ),
+    "C19": dict(
+        text="Stat.tla gives the report as a declarative function of the file (exact rationals) and the run_stat loop as a machine; TLC checks the machine against the definition on every prefix and permutation invariance on every enumerated file; gaftools stat (with/without --cigar, plain/BGZF) runs on every enumerated file and seeded random files; TLC (Check_Stat) decides each printed figure (averages within half a unit of the last printed digit).",
+        ref="5 C19", note="Trusted: TLC, the report regexes in harness/props/c19.py. Pool: spec/data/stat_pool.json. Bounds: files <=3/4 pool records exhaustively, random files <=12 records with denominators dividing 10000.",
+        technique="TLC model checking of Stat.tla (loop vs definition, permutation invariance) + replay through gaftools stat; TLC validation of the printed report",
+    ),
+    "C20": dict(
+        text="Phase.tla gives the admissible annotations of a read from the haplotag TSV and the first-row-wins loop as a machine (checked against the declarative set); gaftools phase runs on every enumerated (TSV, file) and random combinations; TLC (Check_Phase) decides one-record-per-record, 12 columns incl. strand, optional fields unchanged and well-formed, exactly one ps:Z/ht:Z from the TSV.",
+        ref="5 C20", note="Trusted: TLC, the line splitter. Pool: spec/data/phase_pool.json. An output path is always given; parser-safe optional fields.",
+        technique="TLC model checking of Phase.tla + replay through gaftools phase; TLC validation of every output line",
+    ),
 }
